@@ -150,39 +150,47 @@ impl<K: Eq, V> Default for HashMap<K, V> { fn default() -> Self { Self::new() } 
 // no reclamation (so no recursive drop glue and no atomics for the model checker to explore).
 use std::{fmt, hash::{Hash, Hasher}, ops::Deref};
 
-pub struct Arc<T: ?Sized + 'static> { ptr: &'static T }
-impl<T: ?Sized> Clone for Arc<T> { fn clone(&self) -> Self { Arc { ptr: self.ptr } } }
-impl<T: ?Sized> Deref for Arc<T> { type Target = T; fn deref(&self) -> &T { self.ptr } }
-impl<T: ?Sized> AsRef<T> for Arc<T> { fn as_ref(&self) -> &T { self.ptr } }
-impl<T: ?Sized> Borrow<T> for Arc<T> { fn borrow(&self) -> &T { self.ptr } }
+// An `Arc<T>` is ONE thin pointer to a leaked holder that contains the (possibly fat) reference to
+// the payload.  With a fat reference stored directly, `Variable::String(Arc<str>)` /
+// `Type::Tuple(Arc<[Type]>)` carry two words in an enum payload and CBMC no longer recovers the
+// length (measured: `"".chars().count()` unwound the 32-byte word loop of `do_count_chars`).
+pub struct Holder<T: ?Sized + 'static> { r: &'static T }
+pub struct Arc<T: ?Sized + 'static> { h: &'static Holder<T> }
+impl<T: ?Sized> Arc<T> {
+    fn from_ref(r: &'static T) -> Self { Arc { h: Box::leak(Box::new(Holder { r })) } }
+    pub fn ptr_eq(a: &Self, b: &Self) -> bool { std::ptr::eq(a.h as *const Holder<T>, b.h as *const Holder<T>) }
+}
+impl<T: ?Sized> Clone for Arc<T> { fn clone(&self) -> Self { Arc { h: self.h } } }
+impl<T: ?Sized> Deref for Arc<T> { type Target = T; fn deref(&self) -> &T { self.h.r } }
+impl<T: ?Sized> AsRef<T> for Arc<T> { fn as_ref(&self) -> &T { self.h.r } }
+impl<T: ?Sized> Borrow<T> for Arc<T> { fn borrow(&self) -> &T { self.h.r } }
 impl<T> Arc<T> {
-    pub fn new(t: T) -> Self { Arc { ptr: Box::leak(Box::new(t)) } }
+    pub fn new(t: T) -> Self { Arc::from_ref(Box::leak(Box::new(t))) }
 }
 impl<T: Clone> Arc<T> {
     pub fn make_mut(this: &mut Self) -> &mut T {
-        let b: &'static mut T = Box::leak(Box::new((*this.ptr).clone()));
+        let b: &'static mut T = Box::leak(Box::new((*this.h.r).clone()));
         let p: *mut T = b;
-        this.ptr = unsafe { &*p };
+        *this = Arc::from_ref(unsafe { &*p });
         unsafe { &mut *p }
     }
-    pub fn unwrap_or_clone(this: Self) -> T { (*this.ptr).clone() }
-}
-impl<T: ?Sized> Arc<T> {
-    pub fn ptr_eq(a: &Self, b: &Self) -> bool { std::ptr::addr_eq(a.ptr as *const T, b.ptr as *const T) }
+    pub fn unwrap_or_clone(this: Self) -> T { (*this.h.r).clone() }
 }
 impl<T> From<T> for Arc<T> { fn from(t: T) -> Self { Arc::new(t) } }
-impl<T> From<Vec<T>> for Arc<[T]> { fn from(v: Vec<T>) -> Self { Arc { ptr: Box::leak(v.into_boxed_slice()) } } }
-impl<T> From<Box<[T]>> for Arc<[T]> { fn from(v: Box<[T]>) -> Self { Arc { ptr: Box::leak(v) } } }
+// Vec::leak / String::leak do not shrink the allocation: `into_boxed_slice` would realloc with a symbolic
+// size whenever the length is symbolic (slices), which CBMC turns into an array-theory memcpy
+impl<T> From<Vec<T>> for Arc<[T]> { fn from(v: Vec<T>) -> Self { let s: &'static mut [T] = v.leak(); Arc::from_ref(s) } }
+impl<T> From<Box<[T]>> for Arc<[T]> { fn from(v: Box<[T]>) -> Self { Arc::from_ref(Box::leak(v)) } }
 impl<T, const N: usize> From<[T; N]> for Arc<[T]> { fn from(v: [T; N]) -> Self { Arc::from(Vec::from(v)) } }
 impl<T: Clone> From<&[T]> for Arc<[T]> { fn from(v: &[T]) -> Self { Arc::from(v.to_vec()) } }
-impl From<&str> for Arc<str> { fn from(s: &str) -> Self { Arc { ptr: Box::leak(String::from(s).into_boxed_str()) } } }
-impl From<String> for Arc<str> { fn from(s: String) -> Self { Arc { ptr: Box::leak(s.into_boxed_str()) } } }
+impl From<&str> for Arc<str> { fn from(s: &str) -> Self { let r: &'static mut str = String::from(s).leak(); Arc::from_ref(r) } }
+impl From<String> for Arc<str> { fn from(s: String) -> Self { let r: &'static mut str = s.leak(); Arc::from_ref(r) } }
 impl<T> FromIterator<T> for Arc<[T]> { fn from_iter<I: IntoIterator<Item = T>>(it: I) -> Self { Arc::from(it.into_iter().collect::<Vec<T>>()) } }
-impl<T: ?Sized + PartialEq> PartialEq for Arc<T> { fn eq(&self, o: &Self) -> bool { *self.ptr == *o.ptr } }
+impl<T: ?Sized + PartialEq> PartialEq for Arc<T> { fn eq(&self, o: &Self) -> bool { *self.h.r == *o.h.r } }
 impl<T: ?Sized + Eq> Eq for Arc<T> {}
-impl<T: ?Sized + Hash> Hash for Arc<T> { fn hash<H: Hasher>(&self, h: &mut H) { self.ptr.hash(h) } }
-impl<T: ?Sized + fmt::Debug> fmt::Debug for Arc<T> { fn fmt(&self, f: &mut fmt::Formatter<'_>) -> fmt::Result { self.ptr.fmt(f) } }
-impl<T: ?Sized + fmt::Display> fmt::Display for Arc<T> { fn fmt(&self, f: &mut fmt::Formatter<'_>) -> fmt::Result { self.ptr.fmt(f) } }
+impl<T: ?Sized + Hash> Hash for Arc<T> { fn hash<H: Hasher>(&self, h: &mut H) { self.h.r.hash(h) } }
+impl<T: ?Sized + fmt::Debug> fmt::Debug for Arc<T> { fn fmt(&self, f: &mut fmt::Formatter<'_>) -> fmt::Result { self.h.r.fmt(f) } }
+impl<T: ?Sized + fmt::Display> fmt::Display for Arc<T> { fn fmt(&self, f: &mut fmt::Formatter<'_>) -> fmt::Result { self.h.r.fmt(f) } }
 impl<T: Default> Default for Arc<T> { fn default() -> Self { Arc::new(T::default()) } }
 impl From<std::borrow::Cow<'_, str>> for Arc<str> { fn from(s: std::borrow::Cow<'_, str>) -> Self { Arc::from(s.into_owned()) } }
-impl<T: ?Sized + std::marker::Unsize<U>, U: ?Sized> std::ops::CoerceUnsized<Arc<U>> for Arc<T> {}
+
